@@ -33,6 +33,7 @@ type decoder struct {
 	defmsgs [maxLocalMesgs]*defmsg
 
 	timestamp      uint32
+	hasTimestamp   bool // a timestamp field (253) has set the reference; 0 is a legal reference value
 	lastTimeOffset int32
 
 	opts  decodeOptions
@@ -600,7 +601,7 @@ func (d *decoder) parseDataMessage(recordHeader byte, compressed bool) (reflect.
 	}
 
 	// Data message has compressed timestamp header.
-	if d.timestamp == 0 {
+	if !d.hasTimestamp {
 		if d.debug {
 			d.opts.logger.Println(
 				"warning: parsing compressed timestamp",
@@ -886,6 +887,7 @@ func (d *decoder) parseTimeStamp(dm *defmsg, fieldv reflect.Value, pfield *field
 	if pfield.t.Kind() == types.TimeUTC {
 		if pfield.num == fieldNumTimeStamp {
 			d.timestamp = u32
+			d.hasTimestamp = true
 			d.lastTimeOffset = int32(d.timestamp & uint32(compressedTimeMask))
 		}
 		t := decodeDateTime(u32)
@@ -902,7 +904,7 @@ func (d *decoder) parseTimeStamp(dm *defmsg, fieldv reflect.Value, pfield *field
 	// For now not used due to an external dependency.
 	var local time.Time
 	switch {
-	case d.timestamp == 0, d.timestamp < systemTimeMarker:
+	case !d.hasTimestamp, d.timestamp < systemTimeMarker:
 		// No time reference.
 		// Set local with zero offset.
 		tzone := time.FixedZone(localZoneName, 0)
